@@ -44,13 +44,13 @@ def run(ctx) -> None:
         def one(v=v):
             jf = JoinModel(ctx.prog, v)
             facts[v] = jf
+            jr.no_early_result(ctx, jf, "d.no-early-result")
             jr.key_symmetry(ctx, jf)
             jr.loops(ctx, jf)
             jr.buffers(ctx, jf, want_contexts=("matched",) if v == "inner_join" else None)
             if v == "inner_join":
                 jr.inner_unmatched(ctx, jf)
             jr.wrap(ctx, jf)
-            jr.no_early_result(ctx, jf, "d.no-early-result")
         ctx.section(f"determinism:{v}", jr.determinism, ctx, v)
         ctx.section(f"join-structure:{v}", one)
         ctx.section(f"purity:{v}", jr.purity, ctx, v)
